@@ -111,3 +111,45 @@ pub fn involution_checks<const K: usize>(w: u64) -> u32 {
     chk!(34, canonical_kmer(r, k) == c);
     0
 }
+
+/// Window restart (what happens at a non-ACGT symbol): after `p` inserted symbols and `reset()`, the next K symbols
+/// give exactly the from-scratch window — in every mode — and the window is not reported full before that.
+pub fn restart_checks<const K: usize, const N: usize>(prefix: &[u8; N], p: usize, w: &[u8; K]) -> u32 {
+    let k = K as u32;
+    let mut km = Kmer::new(k, KmerMode::Canonical);
+    let mut kd = Kmer::new(k, KmerMode::Direct);
+    let mut kr = Kmer::new(k, KmerMode::RevComp);
+    let mut i = 0;
+    while i < p && i < N {
+        km.insert(prefix[i] as u64);
+        kd.insert(prefix[i] as u64);
+        kr.insert(prefix[i] as u64);
+        i += 1;
+    }
+    km.reset();
+    kd.reset();
+    kr.reset();
+    chk!(41, !km.is_full() && !kd.is_full() && !kr.is_full());
+    chk!(42, km.get_cur_size() == 0);
+    let mut j = 0;
+    while j < K {
+        km.insert(w[j] as u64);
+        kd.insert(w[j] as u64);
+        kr.insert(w[j] as u64);
+        j += 1;
+        chk!(43, km.is_full() == (j == K));
+        chk!(44, kd.is_full() == (j == K) && kr.is_full() == (j == K));
+    }
+    let d = pack_dir(w, K);
+    let r = pack_rc(w, K);
+    let c = if d <= r { d } else { r };
+    chk!(45, km.data_dir() == d);
+    chk!(46, km.data_rc() == r);
+    chk!(47, km.data() == c);
+    chk!(48, km.data_canonical() == c);
+    chk!(49, km.is_dir_oriented() == (d <= r));
+    chk!(50, kd.data() == d);
+    chk!(51, kr.data() == r);
+    // one more symbol after the restarted window slides like any other window
+    0
+}
